@@ -15,17 +15,17 @@
 EXTENDS Serial, TraceBase
 
 \* wire: the message's own frame encoding with CR LF, as the library's Message -> Frame -> bytes conversion gives it
-VARIABLES l, m, rx, wire, txd, consumed, nreads, fault, su, failed
-vars == <<l, m, rx, wire, txd, consumed, nreads, fault, su, failed>>
+VARIABLES l, m, rx, wire, txd, consumed, nreads, fault, ffault, su, failed
+vars == <<l, m, rx, wire, txd, consumed, nreads, fault, ffault, su, failed>>
 
 NoSetup == [ctor |-> "", timeout |-> ""]
-Init == l = 1 /\ m = NoReply /\ rx = <<>> /\ wire = <<>> /\ txd = <<>> /\ consumed = 0 /\ nreads = 0 /\ fault = FALSE /\ su = NoSetup /\ failed = FALSE
+Init == l = 1 /\ m = NoReply /\ rx = <<>> /\ wire = <<>> /\ txd = <<>> /\ consumed = 0 /\ nreads = 0 /\ fault = FALSE /\ ffault = FALSE /\ su = NoSetup /\ failed = FALSE
 
 E == Rec[l]
 IsEvent(name) == l <= NRec /\ E.e = name /\ l' = l + 1
 
 PMEv == /\ IsEvent("pm")
-        /\ m' = E.m /\ rx' = E.rx /\ wire' = E.wire /\ txd' = <<>> /\ consumed' = 0 /\ nreads' = 0 /\ fault' = FALSE
+        /\ m' = E.m /\ rx' = E.rx /\ wire' = E.wire /\ txd' = <<>> /\ consumed' = 0 /\ nreads' = 0 /\ fault' = FALSE /\ ffault' = FALSE
         /\ UNCHANGED <<su, failed>>
 
 PW == /\ IsEvent("pw")
@@ -33,7 +33,7 @@ PW == /\ IsEvent("pw")
          ELSE fault' = TRUE /\ UNCHANGED txd
       /\ IsPrefix(txd', wire)                          \* nothing but the message's frame is ever written
       /\ nreads = 0                                    \* and it is written before anything is read
-      /\ UNCHANGED <<m, rx, wire, consumed, nreads, su, failed>>
+      /\ UNCHANGED <<m, rx, wire, consumed, nreads, ffault, su, failed>>
 
 PR == /\ IsEvent("pr")
       /\ ResponseExpected(m)                           \* a read happens only when a reply is due
@@ -41,13 +41,20 @@ PR == /\ IsEvent("pr")
       /\ nreads' = nreads + 1
       /\ IF E.ret > 0 THEN consumed' = consumed + E.ret /\ consumed' <= Len(LineFrom(rx, 0)) /\ UNCHANGED fault
          ELSE consumed' = consumed /\ fault' = (fault \/ E.ret = -2)
-      /\ UNCHANGED <<m, rx, wire, txd, su, failed>>
+      /\ UNCHANGED <<m, rx, wire, txd, ffault, su, failed>>
+
+\* a flush of the port: not a write, not a read (the library as it stands never flushes; a version that does may or
+\* may not report a refused flush, but it can never pass off anything else as the reply)
+PF == /\ IsEvent("pf")
+      /\ ffault' = (ffault \/ E.ret < 0)
+      /\ UNCHANGED <<m, rx, wire, txd, consumed, nreads, fault, su, failed>>
 
 PMRet ==
     /\ IsEvent("pmret")
     /\ E.txd = txd
     /\ E.rxleft = Len(rx) - consumed
     /\ IF fault THEN E.res.k = "Err"                   \* a write or read failure is an error, not a missing reply
+       ELSE IF ffault /\ E.res.k = "Err" THEN TRUE
        ELSE /\ txd = wire                              \* exactly one frame out
             /\ IF ResponseExpected(m)
                THEN /\ consumed = Len(LineFrom(rx, 0)) \* exactly one line in
@@ -56,20 +63,20 @@ PMRet ==
                     \* or an error if it cannot be decoded / nothing came
                     /\ E.res = (IF E.line = <<>> THEN ErrReply ELSE E.direct)
                ELSE nreads = 0 /\ E.res = NoReply
-    /\ UNCHANGED <<m, rx, wire, txd, consumed, nreads, fault, su, failed>>
+    /\ UNCHANGED <<m, rx, wire, txd, consumed, nreads, fault, ffault, su, failed>>
 
 SetupEv == /\ IsEvent("setup")
            /\ su' = [ctor |-> E.ctor, timeout |-> E.timeout] /\ failed' = FALSE
-           /\ UNCHANGED <<m, rx, wire, txd, consumed, nreads, fault>>
+           /\ UNCHANGED <<m, rx, wire, txd, consumed, nreads, fault, ffault>>
 DevEv == /\ IsEvent("dev")
          /\ failed' = (failed \/ ~E.ok)
-         /\ UNCHANGED <<m, rx, wire, txd, consumed, nreads, fault, su>>
+         /\ UNCHANGED <<m, rx, wire, txd, consumed, nreads, fault, ffault, su>>
 SetupRet ==
     /\ IsEvent("setupret")
     /\ SetupOK([res |-> E.res, port |-> E.final, timeout |-> E.timeout_set], failed)
     /\ (E.res = "ok" /\ su.ctor = "configure_port" => E.timeout = su.timeout)    \* the caller's value when configured directly
-    /\ UNCHANGED <<m, rx, wire, txd, consumed, nreads, fault, su, failed>>
+    /\ UNCHANGED <<m, rx, wire, txd, consumed, nreads, fault, ffault, su, failed>>
 
-Next == PMEv \/ PW \/ PR \/ PMRet \/ SetupEv \/ DevEv \/ SetupRet
+Next == PMEv \/ PW \/ PR \/ PF \/ PMRet \/ SetupEv \/ DevEv \/ SetupRet
 Spec == Init /\ [][Next]_vars
 =============================================================================
